@@ -75,3 +75,75 @@ package memory
 //@   loop 2: invariant bounds: -1 <= rangeindex && rangeindex < len(keys)
 //@   loop 1: invariant found: forall k string :: visited(k) && hasPrefix(k, pr) && (!withUpperBound || upperBound == nil || strlt(k, ub)) ==> (exists j int :: 0 <= j && j < len(keys) && keys[j] == k)
 //@   ensures complete: result1 == nil && (!withUpperBound || (forall j int :: 0 <= j && j < len(prefix) ==> prefix[j] == 255)) ==> (forall k string :: in(old(d.db), k) && hasPrefix(k, string(prefix)) ==> (exists j int :: 0 <= j && j < len(cast(result0, *iterator).keys) && cast(result0, *iterator).keys[j] == k))
+
+// ---- update / write helpers: nothing is applied when the callback fails -----------------------
+//@ extern func github.com/NethermindEth/juno/db.IndexedBatch.Write
+//@   logged as CommitIndexed
+//@   modifies *
+//@   modifies maps
+//@ extern func github.com/NethermindEth/juno/db.Batch.Write
+//@   logged as CommitPlain
+//@   modifies *
+//@   modifies maps
+
+//@ func (*Database).Update
+//@   props C15, C05
+//@   arith int
+//@   requires d != nil
+//@   modifies *
+//@   modifies maps
+//@   assigns calls_CommitIndexed
+//@   ensures closed: old(d.db) == nil ==> result == errDBClosed && calls(fn) == old(calls(fn)) && calls_CommitIndexed == old(calls_CommitIndexed)
+//@   ensures callback_once: old(d.db) != nil ==> calls(fn) == old(calls(fn)) + 1
+//@   ensures nothing_applied_on_failure: old(d.db) != nil && ret(fn) != nil ==> calls_CommitIndexed == old(calls_CommitIndexed) && result == ret(fn)
+//@   ensures committed_on_success: old(d.db) != nil && ret(fn) == nil ==> calls_CommitIndexed == old(calls_CommitIndexed) + 1
+
+//@ func (*Database).Write
+//@   props C15, C05
+//@   arith int
+//@   requires d != nil
+//@   modifies *
+//@   modifies maps
+//@   assigns calls_CommitPlain
+//@   ensures closed: old(d.db) == nil ==> result == errDBClosed && calls(fn) == old(calls(fn)) && calls_CommitPlain == old(calls_CommitPlain)
+//@   ensures callback_once: old(d.db) != nil ==> calls(fn) == old(calls(fn)) + 1
+//@   ensures nothing_applied_on_failure: old(d.db) != nil && ret(fn) != nil ==> calls_CommitPlain == old(calls_CommitPlain) && result == ret(fn)
+//@   ensures committed_on_success: old(d.db) != nil && ret(fn) == nil ==> calls_CommitPlain == old(calls_CommitPlain) + 1
+
+// ---- write batches: reads see the batch's own writes over the database; later operations win ------
+//@ extern func slices.Clone
+//@   ensures len(result) == len(s) && fresh(result)
+
+// Has: the overlay answers first (a buffered delete hides the database's value), else the database.
+//@ func (*batch).Has
+//@   props C15
+//@   arith int
+//@   requires b != nil
+//@   ensures closed: b.db == nil ==> result1 == errBatchClosed && !result0
+//@   ensures overlay: b.db != nil && in(b.writeMap, string(key)) ==> result1 == nil && (result0 <==> !b.writeMap[string(key)].delete)
+//@   ensures fallthrough: b.db != nil && !in(b.writeMap, string(key)) ==> result1 == nil && (result0 <==> in(b.db.db, string(key)))
+
+// Put / Delete: appended to the ordered log, and the overlay entry for that key is replaced.
+//@ func (*batch).Put
+//@   props C15
+//@   arith int
+//@   requires b != nil && b.size < 1<<60 && len(key) < 1<<40 && len(value) < 1<<40
+//@   requires open_has_overlay: b.db != nil ==> b.writeMap != nil
+//@   modifies b.writes, b.size, b.writes[len(b.writes)..cap(b.writes)]
+//@   modifies maps
+//@   ensures closed: old(b.db) == nil ==> result == errBatchClosed && len(b.writes) == old(len(b.writes))
+//@   ensures appended: old(b.db) != nil ==> result == nil && len(b.writes) == old(len(b.writes)) + 1 && b.writes[len(b.writes)-1].key == string(key) && !b.writes[len(b.writes)-1].delete
+//@   ensures earlier_kept: old(b.db) != nil ==> (forall j int :: 0 <= j && j < old(len(b.writes)) ==> b.writes[j] == old(b.writes[j]))
+//@   ensures overlay: old(b.db) != nil ==> in(b.writeMap, string(key)) && b.writeMap[string(key)] == b.writes[len(b.writes)-1] && (forall k string :: k != string(key) ==> ((in(b.writeMap, k) <==> old(in(b.writeMap, k))) && b.writeMap[k] == old(b.writeMap[k])))
+
+//@ func (*batch).Delete
+//@   props C15
+//@   arith int
+//@   requires b != nil && b.size < 1<<60 && len(key) < 1<<40
+//@   requires open_has_overlay: b.db != nil ==> b.writeMap != nil
+//@   modifies b.writes, b.size, b.writes[len(b.writes)..cap(b.writes)]
+//@   modifies maps
+//@   ensures closed: old(b.db) == nil ==> result == errBatchClosed && len(b.writes) == old(len(b.writes))
+//@   ensures appended: old(b.db) != nil ==> result == nil && len(b.writes) == old(len(b.writes)) + 1 && b.writes[len(b.writes)-1].key == string(key) && b.writes[len(b.writes)-1].delete
+//@   ensures earlier_kept: old(b.db) != nil ==> (forall j int :: 0 <= j && j < old(len(b.writes)) ==> b.writes[j] == old(b.writes[j]))
+//@   ensures overlay: old(b.db) != nil ==> in(b.writeMap, string(key)) && b.writeMap[string(key)] == b.writes[len(b.writes)-1] && (forall k string :: k != string(key) ==> ((in(b.writeMap, k) <==> old(in(b.writeMap, k))) && b.writeMap[k] == old(b.writeMap[k])))
